@@ -41,6 +41,8 @@ type c41case struct {
 	Max  uint64   `json:"max"`           // MaximumEntryCount (0 = version default = unlimited)
 	Mod  string   `json:"mod,omitempty"` // what happens, right after the first successful scan, to the root file that carries a wanted digest (roots copy/renamed): "" | same-size | resized | deleted | dir
 	Ops  []string `json:"ops"`
+	// Stale, when set, makes this a case of the stale-plan leg (c41stale_test.go); the other fields are unused then.
+	Stale *c41stale `json:"stale,omitempty"`
 }
 
 var (
@@ -521,6 +523,18 @@ func TestC41(t *testing.T) {
 		if err := json.Unmarshal(raw, &c); err != nil {
 			t.Fatalf("INFRA: replay case: %v", err)
 		}
+		if c.Stale != nil {
+			res := c41staleRun(e, *c.Stale, t.Logf)
+			t.Logf("replay %s: outcomes %v verdict %q infra %q", vr.J(c), res.outcomes, res.viol, res.infra)
+			r.Case(vr.J(c), res.nontrivial)
+			if res.infra != "" {
+				t.Fatalf("INFRA: %s", res.infra)
+			}
+			if res.viol != "" {
+				r.Violate("stale plan: Transition grew the root past MaximumEntryCount | "+c.Stale.regime(), res.viol, c, nil)
+			}
+			return
+		}
 		res := c41run(e, src, c, t.Logf)
 		t.Logf("replay %s: outcomes %v verdict %q infra %q", vr.J(c), res.outcomes, res.viol, res.infra)
 		r.Case(vr.J(c), res.nontrivial)
@@ -640,8 +654,58 @@ func TestC41(t *testing.T) {
 		f := found[k]
 		r.Violate(k, f.what, f.c, func() bool { return c41run(e, src, f.c, func(string, ...any) {}).viol != "" })
 	}
+	// ---- stale-plan leg ----
+	stale := c41staleCases(vr.Thorough())
+	staleFound := map[string]c41found{}
+	r.Set("stale_plan_cases", len(stale))
+	const staleChunk = 64
+	vr.Parallel((len(stale)+staleChunk-1)/staleChunk, func(i int) {
+		if time.Now().After(deadline) {
+			skipped.Add(1)
+			return
+		}
+		l := r.Local()
+		defer l.Flush()
+		for _, sc := range stale[i*staleChunk : min((i+1)*staleChunk, len(stale))] {
+			sc := sc
+			c := c41case{Stale: &sc}
+			res := c41staleRun(e, sc, func(string, ...any) {})
+			if res.infra != "" {
+				infraMu.Lock()
+				if len(infra) < 5 {
+					infra = append(infra, vr.J(c)+": "+res.infra)
+				}
+				infraMu.Unlock()
+				continue
+			}
+			l.Case(vr.J(c), res.nontrivial)
+			for _, o := range res.outcomes {
+				l.Outcome(o)
+			}
+			if res.viol != "" {
+				l.Outcome("violation")
+				// Canonical identity: which accounting regime let the root outgrow the
+				// limit; the smallest case per regime is kept as the representative.
+				k := "stale plan: Transition grew the root past MaximumEntryCount | " + sc.regime()
+				vmu.Lock()
+				if cur, ok := staleFound[k]; !ok || vr.J(c) < vr.J(cur.c) {
+					staleFound[k] = c41found{c, res.viol}
+				}
+				vmu.Unlock()
+			}
+		}
+	})
+	var staleKeys []string
+	for k := range staleFound {
+		staleKeys = append(staleKeys, k)
+	}
+	sort.Strings(staleKeys)
+	for _, k := range staleKeys {
+		f := staleFound[k]
+		r.Violate(k, f.what, f.c, func() bool { return c41staleRun(e, *f.c.Stale, func(string, ...any) {}).viol != "" })
+	}
 	if n := skipped.Load(); n > 0 {
-		r.NotExhaustive(fmt.Sprintf("time budget reached: %d of %d static combinations not run", n, len(combos)))
+		r.NotExhaustive(fmt.Sprintf("time budget reached: %d work units (static combinations / stale-plan chunks) not run", n))
 	}
 	if len(infra) > 0 {
 		t.Fatalf("INFRA: %s", strings.Join(infra, "\n"))
